@@ -647,6 +647,24 @@ def run_case(case):
                 raise BadOutput("precondition does not print as (and ...)")
             out = [sexpr.render(c) for c in ast[1:]]
             verdict = check_pair(conds, out, dd, stats)
+        elif entry == "precondition_nested":
+            # (and A (or B C)): the nested junction is printed by the same call, at the SAME number of decimals
+            p = Precondition("and")
+            p.add_condition(trees[0])
+            nested = Precondition("or")
+            for t in trees[1:]:
+                nested.add_condition(t)
+            p.add_condition(nested)
+            text = p.print(should_simplify=True, **kw)
+            ast = sexpr.read(text)
+            inner = [c for c in ast[1:] if c and c[0] == "or"]
+            outer = [c for c in ast[1:] if not (c and c[0] == "or")]
+            if ast[0] != "and" or len(inner) != 1:
+                raise BadOutput(f"(and A (or B C)) does not print as a conjunction with one disjunction: {text}")
+            out = [sexpr.render(c) for c in outer] + ["OR"] + [sexpr.render(c) for c in inner[0][1:]]
+            verdict = check_pair(conds[:1], out[:len(outer)], dd, stats)
+            if verdict[0] == "held":
+                verdict = check_pair(conds[1:], [sexpr.render(c) for c in inner[0][1:]], dd, stats, junction="or")
         elif entry == "precondition_or":
             # the same conditions as members of a disjunction: an equality is an assumption only under 'and'
             p = Precondition("or")
@@ -782,6 +800,14 @@ def cases_for(tier, seed):
     cases.append({"entry": "expression", "conds": [near(twins[0][1], 0.00002)], "digits": 6, "after": [twins[0][1]]})
     cases.append({"entry": "equality", "conds": [["=", near(twins[0][1], 0.00002), ["load_limit", "?x"]]], "digits": 6,
                   "after": [["=", twins[0][1], ["load_limit", "?x"]]]})
+    # a junction nested in the conjunction, constants that need three or four decimals, printed at 4-6 decimals
+    for pi, pool in enumerate(FLUENT_POOLS):
+        a, b, c_ = [sexpr.read(x) for x in pool[:3]]
+        for d in (4, 5, 6):
+            cases.append({"entry": "precondition_nested", "digits": d, "conds": [
+                ["<=", ["*", "0.4375", a], b],
+                ["<=", ["*", "0.0625", b], c_],
+                [">=", ["+", ["*", "3.125", a], ["*", "0.1875", c_]], "1.875"]]})
     # default-digits path (the module-level default read from NUMERIC_PRECISION)
     for c, entry in fixed[:3] + fixed[4:6]:
         cases.append({"entry": entry, "conds": [c], "digits": None})
